@@ -408,12 +408,6 @@ func (g *schemaGenerator) generateDeclaredType(t *schemas.Type, scope nameScope)
 
 		for _, f := range tt.Fields {
 			if f.DefaultValue != nil {
-				if f.Name == additionalProperties {
-					g.output.file.Package.AddImport("reflect", "")
-					g.output.file.Package.AddImport("strings", "")
-					g.output.file.Package.AddImport("github.com/go-viper/mapstructure/v2", "")
-				}
-
 				validators = append(validators, &defaultValidator{
 					jsonName:         f.JSONName,
 					fieldName:        f.Name,
@@ -426,6 +420,14 @@ func (g *schemaGenerator) generateDeclaredType(t *schemas.Type, scope nameScope)
 		}
 
 		if t.IsSubSchemaTypeElem() || len(validators) > 0 {
+			// The unmarshaler collects the additional properties whenever the struct has a field for them,
+			// typed or not.
+			if hasAdditionalPropertiesField(tt) {
+				g.output.file.Package.AddImport("reflect", "")
+				g.output.file.Package.AddImport("strings", "")
+				g.output.file.Package.AddImport("github.com/go-viper/mapstructure/v2", "")
+			}
+
 			g.generateUnmarshaler(decl, validators)
 		}
 
@@ -446,6 +448,21 @@ func (g *schemaGenerator) generateDeclaredType(t *schemas.Type, scope nameScope)
 	}
 
 	return &codegen.NamedType{Decl: &decl}, nil
+}
+
+func hasAdditionalPropertiesField(t codegen.Type) bool {
+	st, ok := t.(*codegen.StructType)
+	if !ok {
+		return false
+	}
+
+	for _, f := range st.Fields {
+		if f.Name == additionalProperties {
+			return true
+		}
+	}
+
+	return false
 }
 
 func (g *schemaGenerator) structFieldValidators(
